@@ -1193,6 +1193,10 @@ def observe_define(st, cls, env, vg):
                 earlier += [n for n, p in e.__signature__.parameters.items() if p.default is None]
         rec["shadowed"] = sorted(set(rec["missing_required"]) & set(earlier))
         rec["redeclared"] = sorted(set(rec["missing_required"]) & own)
+        # a base's Constant that is a Field in the subclass (the subclass, or another branch of the hierarchy that comes
+        # first in the MRO, replaced it): its requiredness is the replacing declaration's business
+        rec["replaced_constants"] = sorted(n for n in rec["missing_required"]
+                                           if n in consts and not isinstance(fields.get(n), Constant))
         obs["bases"].append(rec)
     inherited = []
     for name, f in fields.items():
